@@ -1224,6 +1224,39 @@ func sigClass(fn *ssa.Function) string {
 	return "(" + strings.Join(ps, ",") + ")→(" + strings.Join(rs, ",") + ")"
 }
 
+// normClass: a signature class with the convention for "no value" factored out. A converter may say "there is no
+// value" with a nil pointer, with a boolean next to the value (before or after it) or with an error: (string)→(*T),
+// (string)→(T,bool), (string)→(bool,T) and (string)→(T,error) are the same converter as far as the tables that name
+// allowed transformers are concerned (what the converter computes is the subject of other rules).
+func normClass(cls string) string {
+	i := strings.Index(cls, "→(")
+	if i < 0 || !strings.HasSuffix(cls, ")") {
+		return cls
+	}
+	res := strings.Split(cls[i+len("→("):len(cls)-1], ",")
+	var vals []string
+	flagged := false
+	for _, r := range res {
+		if (r == "bool" || r == "error") && len(res) > 1 {
+			flagged = true
+			continue
+		}
+		vals = append(vals, r)
+	}
+	if len(vals) == 1 && strings.HasPrefix(vals[0], "*") && !flagged && len(res) == 1 {
+		// a pointer to a basic value stands for "value or none"; pointers to the module's structs stay as they are
+		if !strings.Contains(vals[0], ".") || vals[0] == "*time.Time" || vals[0] == "*time.Duration" {
+			vals[0] = vals[0][1:]
+			flagged = true
+		}
+	}
+	out := cls[:i] + "→(" + strings.Join(vals, ",")
+	if flagged {
+		out += "?"
+	}
+	return out + ")"
+}
+
 func shortType(t types.Type) string {
 	return types.TypeString(t, func(p *types.Package) string { return p.Name() })
 }
@@ -1232,7 +1265,7 @@ func shortType(t types.Type) string {
 // outside the module and exported API, by signature class for the module's own helpers (whatever they are called).
 func (b *binder) classAllowed(cl string, allowed []string) bool {
 	for _, a := range allowed {
-		if a == cl || (b.classOf[cl] != "" && a == b.classOf[cl]) {
+		if a == cl || (b.classOf[cl] != "" && (a == b.classOf[cl] || normClass(a) == normClass(b.classOf[cl]))) {
 			return true
 		}
 	}
@@ -1292,7 +1325,7 @@ func (b *binder) classAllowed(cl string, allowed []string) bool {
 			}
 			cls := sigClass(cal)
 			for _, a := range allowed {
-				if a == cls {
+				if a == cls || normClass(a) == normClass(cls) {
 					return true
 				}
 			}
